@@ -3,7 +3,7 @@
 cd ${VERIF_DIR:-/verif}; out=${1:-/var/tmp/checks.log}; tier=${2:-quick}; : > $out
 for p in ${PROPS:-$(python3 -c "import json;print(' '.join(sorted(json.load(open('/verif/checks.json')))))")}; do
   echo "=== $p" >> $out
-  ( time timeout 3000 ./check $p $tier ) >> $out 2>&1
+  ( time timeout 7200 ./check $p $tier ) >> $out 2>&1
   echo "exit=$?" >> $out
 done
 echo ALLDONE >> $out
